@@ -57,21 +57,25 @@ Definition pair_mem (p : N * N) (l : list (N * N)) : bool :=
           5 transition command for a task not owned by the requesting environment
           7 roster inconsistent (id twice / owner is not the environment the task was launched for)
           8 another environment's listing entry changed *)
+(* the environment that holds the lock on a task (parent role set and ids intact) *)
+Definition lowner (t : task) : option N := if t_idok t then t_owner t else None.
+
 Definition mon04_step (ops : list op) (prev : obs) (o : op) (cur : obs) : list N :=
   let me := op_env o in
   let mine (ow : option N) : bool :=
     match ow, me with Some a, Some b => N.eqb a b | _, _ => false end in
   let fresh_for_me (id : tid) : bool :=
     match ob_find prev id, me with None, Some e => N.eqb (fst id) e | _, _ => false end in
-  let died (id : tid) : bool := match o with ODies t => tid_eqb t id | _ => false end in
+  let died (id : tid) : bool :=
+    match o with ODies t => tid_eqb t id | OFail ids => mem_tid id ids | _ => false end in
   (* 7 *)
   let c7 := if nodupb tid_eqb (map t_id (ob_roster cur)) &&
                forallb (fun t => match t_owner t with Some e => N.eqb (fst (t_id t)) e | None => true end)
                        (ob_roster cur)
             then 0 else 7 in
   (* 3 *)
-  let c3 := if forallb (fun t => match t_owner t with
-                                 | Some _ => mine (t_owner t) || died (t_id t) ||
+  let c3 := if forallb (fun t => match lowner t with
+                                 | Some _ => mine (lowner t) || died (t_id t) ||
                                              match ob_find cur (t_id t) with
                                              | Some t' => task_eqb t t'
                                              | None => false
@@ -81,13 +85,13 @@ Definition mon04_step (ops : list op) (prev : obs) (o : op) (cur : obs) : list N
             then 0 else 3 in
   (* 4 *)
   let c4 := if forallb (fun k => match ob_find prev k with
-                                 | Some t => match t_owner t with None => true | ow => mine ow end
+                                 | Some t => match lowner t with None => true | ow => mine ow end
                                  | None => fresh_for_me k
                                  end) (ob_kills cur)
             then 0 else 4 in
   (* 5 *)
   let c5 := if forallb (fun k => match ob_find prev k with
-                                 | Some t => mine (t_owner t)
+                                 | Some t => mine (lowner t)
                                  | None => fresh_for_me k
                                  end) (ob_cmds cur)
             then 0 else 5 in
@@ -181,7 +185,7 @@ Definition hang_code (c : hcase) : N :=
   end.
 
 Definition mon06 (c : hcase) : N :=
-  first_code [1; 5]
+  first_code []
     (mon_walk (mon06_step (h_ops c)) obs0 (h_ops c) (h_obs c) ++
      (if Nat.ltb (length (h_obs c)) (length (h_ops c)) then [hang_code c]
       else if Nat.ltb (length (h_ops c)) (length (h_obs c)) then [90] else [])).
@@ -189,7 +193,8 @@ Definition mon06 (c : hcase) : N :=
 (* ================= branch tags (measured input distribution) ================= *)
 (* bit 0 overlapped creation, 1 creation failed after insertion, 2 creation refused (detector / template),
    3 DESTROY hooks at two or more weights, 4 destroy forced / in a state that needs it, 5 keep-tasks,
-   6 cleanup or kill while some environment owns tasks, 7 a task died, 8 destroy with DESTROY hooks *)
+   6 cleanup or kill while some environment owns tasks, 7 a task died, 8 destroy with DESTROY hooks,
+   9 an executor / agent failed *)
 Definition bit (b : bool) (k : N) : N := if b then N.shiftl 1 k else 0.
 
 Definition weights_of (c : cspec) : list Z :=
@@ -218,6 +223,7 @@ Definition tag_step (ops : list op) (prev : obs) (o : op) (cur : obs) : list N :
         end
     | OCleanup | OKill _ => bit (existsb is_locked (ob_roster prev)) 6
     | ODies _ => 128
+    | OFail _ => 512
     | _ => 0
     end ].
 
